@@ -792,6 +792,62 @@ def dpsk_detection_evaluated(dd: FuncInfo):
     return OK, "unlisted spelling; the decided index is the phase step (b - a) mod M for every ordered pair of points, M = 4 and 8"
 
 
+def dpsk_modulator_evaluated(repo: Repo):
+    """DPSKModulator.forward (class helpers followed, the phase memory kept on the object) evaluated with own arithmetic for
+    orders 4 and 8 on one row and on a batch of two rows of bit groups, in training and in evaluation mode, with a
+    stand-in phase table exp(2 pi j k / M): symbol t = symbol t-1 * table[index of bit group t], symbol -1 being the
+    phase memory; the memory left behind is the last symbol (its mean over the batch) in training mode and unchanged in
+    evaluation mode.  The index of a bit group is compared as the natural-binary integer (the labelling is decided by
+    the LABEL rule).  Returns (status, detail) or (None, reason)."""
+    import cmath
+    import math
+
+    ci = repo.cls(f"{MD}/dpsk.py", "DPSKModulator")
+    fwd = repo.method(ci, "forward")
+    funcs = {f"self.{nm}": m.node for nm, m in ci.methods.items() if nm not in ("forward", "__init__")}
+    runs = 0
+    for M, b in ((4, 2), (8, 3)):
+        table = [cmath.exp(2j * math.pi * k / M) for k in range(M)]
+        rows1 = [[(i * 5 + 3) % M for i in range(3)]]
+        rows2 = [[1, M - 1, 2], [3, 0, 1]]
+        for rows in (rows1, rows2):
+            bits = [[float((g >> (b - 1 - t)) & 1) for g in r_ for t in range(b)] for r_ in rows]
+            x = bits if len(rows) > 1 else bits[0]
+            for training in (True, False):
+                mem0 = complex(0, 1)
+                attrs = {"self._phase_memory": [mem0], "self.constellation": list(table), "self.order": M, "self._bits_per_symbol": b, "self.bits_per_symbol": b, "self.training": training, "self.gray_coding": False}
+                try:
+                    run_fragment(fwd.body, {"x": x, "args": PySeq([]), "kwargs": {}}, attrs, funcs=funcs, materialise=True, max_steps=400000, attrs_live=True)
+                    return None, "no value returned"
+                except FragReturn as ret:
+                    out = ret.value
+                except (Unfoldable, FragRaise, TypeError, ValueError, IndexError) as exc:
+                    return None, f"forward not evaluable ({exc})"
+                want = []
+                for r_ in rows:
+                    prev, acc = mem0, []
+                    for g in r_:
+                        prev = prev * table[g]
+                        acc.append(prev)
+                    want.append(acc)
+                got = out if len(rows) > 1 else [out]
+                try:
+                    ok = len(got) == len(want) and all(len(g_) == len(w_) and all(abs(complex(a_) - b_) < 1e-9 for a_, b_ in zip(g_, w_)) for g_, w_ in zip(got, want))
+                except TypeError:
+                    return None, "the result is not a block of complex symbols"
+                if not ok:
+                    return VIOLATION, f"order {M}, bit groups {rows}, phase memory {mem0}: the symbols are {str(out)[:150]}; differential encoding (symbol t = symbol t-1 times the phase step of group t, the memory first) gives {str(want)[:150]}"
+                mem = attrs.get("self._phase_memory")
+                while isinstance(mem, list) and len(mem) == 1:
+                    mem = mem[0]
+                last = [w_[-1] for w_ in want]
+                want_m = (sum(last) / len(last)) if training else mem0
+                if mem is None or isinstance(mem, list) or abs(complex(mem) - want_m) > 1e-9:
+                    return VIOLATION, f"order {M}, {'training' if training else 'evaluation'} mode: the phase memory left for the next call is {mem!r} instead of {want_m}"
+                runs += 1
+    return OK, f"{runs} runs (orders 4, 8; one row and two rows; training and evaluation mode): symbol t = symbol t-1 * phase step t with the memory first; memory = last symbol in training mode, unchanged in evaluation mode"
+
+
 def oqpsk_modulator_evaluated(repo: Repo):
     """OQPSKModulator.forward (class helpers followed, the carried quadrature value kept on the object) evaluated with own
     arithmetic on one row of 3 and of 4 bit pairs and on a batch of two rows, in training and in evaluation mode: symbol
@@ -1551,7 +1607,10 @@ def rule_memory(repo: Repo, rep: Report) -> int:
     dm = repo.method(repo.cls(f"{MD}/dpsk.py", "DPSKModulator"), "forward")
     st0 = [s for s in ast.walk(dm.node) if isinstance(s, ast.Assign) and unparse(s.targets[0]) == "output[..., 0]"]
     sti = [s for s in ast.walk(dm.node) if isinstance(s, ast.Assign) and unparse(s.targets[0]) == "output[..., i]"]
-    if len(st0) == 1 and len(sti) == 1:
+    dst_, dd_ = dpsk_modulator_evaluated(repo)
+    if dst_ is not None:
+        rep.add("MEMORY", dm, "DPSK modulator forward evaluated: one row and a batch, training and evaluation mode, two orders", dst_, dd_, node=dm.node)
+    elif len(st0) == 1 and len(sti) == 1:
         s1, d1, _ = classify(st0[0].value, ["ref_phase.squeeze(-1) * phase_shifts[..., 0]"])
         s2, d2, _ = classify(sti[0].value, ["output[..., i - 1] * phase_shifts[..., i]"])
         rep.add("MEMORY", dm, f"DPSK encoding: {unparse(st0[0])}", s1, d1 if s1 != OK else "first symbol = reference * first phase step", node=st0[0])
